@@ -171,6 +171,7 @@ type innovPlan struct {
 	recurrent bool
 	linkProb  float64
 	preEpochs int // read: epochs before the population is written and read back
+	unsort    bool // read: the genomes are written with their genes out of innovation order
 	initSeed  int64
 	genSeeds  []int64
 	landscape []string
@@ -217,7 +218,7 @@ func (pl *innovPlan) build() (pop *genetics.Population, err error) {
 	switch pl.kind {
 	case "random":
 		return genetics.NewPopulationRandom(pl.in, pl.out, pl.maxHidden, pl.recurrent, pl.linkProb, pl.opts)
-	case "read":
+	case "read", "read:unsorted":
 		p0, err := genetics.NewPopulation(cloneGenome(pl.start), pl.opts)
 		if err != nil {
 			return nil, err
@@ -228,6 +229,17 @@ func (pl *innovPlan) build() (pop *genetics.Population, err error) {
 			fitnessFrom(pl.initSeed+int64(e)+1, p0, "distinct")
 			if err := ex.NextEpoch(ctx, e+1, p0); err != nil {
 				return nil, err
+			}
+		}
+		if pl.unsort {
+			// the written file lists the gene with the largest number first (deterministic: same in the twin run)
+			for _, o := range p0.Organisms {
+				gs := o.Genotype.Genes
+				if n := len(gs); n >= 2 {
+					last := gs[n-1]
+					copy(gs[1:], gs[:n-1])
+					gs[0] = last
+				}
 			}
 		}
 		var buf bytes.Buffer
@@ -292,6 +304,10 @@ func opInnovHistory(g *G) (interface{}, []uint64, int, interface{}) {
 			pl.start = handGenome(g, 0)
 		}
 		pl.preEpochs = g.intn(6)
+		if g.chance(0.25) {
+			pl.unsort = true
+			pl.kind = "read:unsorted"
+		}
 	}
 	if pl.start != nil && len(pl.start.ControlGenes) > 0 {
 		return nil, nil, 0, nil
@@ -337,7 +353,14 @@ func opInnovHistory(g *G) (interface{}, []uint64, int, interface{}) {
 	}
 	initOut := map[string]interface{}{"ctr": counters(pop), "binds": ib, "roles": ir, "recs": dumpReg(pop).Records,
 		"lasts": lasts, "ascending": ascending, "orgs": len(pop.Organisms)}
+	// the genomes the counters were initialised from, for the model's accessors (bit-exact comparison in the driver)
+	gsOut := []*JGenome{}
+	for _, o := range pop.Organisms {
+		gsOut = append(gsOut, dumpGenome(o.Genotype))
+	}
+	initOut["genomes"] = gsOut
 	if pl.start != nil {
+		initOut["start"] = dumpGenome(pl.start)
 		ln, _ := genetics.VerifLastNodeId(pl.start)
 		ni, _ := genetics.VerifNextGeneInnovNum(pl.start)
 		initOut["startLasts"] = [2]int64{int64(ln), ni}
